@@ -23,7 +23,7 @@ func c10Src(c *C10Case) string {
 
 var c10ArgWords = []string{"A", "B", "VAR_X", "FLAG_Y", "é", "x1", "_", "OBJ_EVENT_ID_PLAYER", "MSGBOX_DEFAULT",
 	"var", "flag", "defeated", "true", "FALSE", "if", "else", "while", "value", "case", "default", "script", "text", "global", "local", "const", "poryswitch", "break", "continue", "do", "switch", "elif", "mart", "movement", "mapscripts", "raw",
-	"0", "1", "42", "0x1F", "-1", "-20", "007",
+	"0", "1", "42", "0x1F", "0x1f", "0xdeadBEEF", "-1", "-20", "007",
 	"+", "-", "*", "|", "&", "!", "=", "==", "!=", "<", "<=", ">", ">=", ":", "[", "]", "{", "}", "&&", "||", "/", "%", "@", "."}
 
 var c10Names = []string{"lock", "faceplayer", "setvar", "addvar", "call", "goto", "msgbox", "applymovement", "é_cmd", "Cmd_1", "_x", "special", "waitstate", "specialvar", "callstd", "trainerbattle_single", "compare", "goto_if_set", "switchh", "iff", "do_it"}
